@@ -572,16 +572,26 @@ def seeded_sessions(ctx):
                 for tk, _ in chain:
                     argv += ['-T'] + tk
                 fc = CNF if tool == 'cnfgen' else OPB
-                a = outcome(lambda: (cnfgen_cli if tool == 'cnfgen' else pbgen_cli)(argv, mode='formula'))
+
+                class TooBig(Exception):
+                    pass
 
                 def session():
                     random.seed(seed)
                     G = make_graph_from_spec(gs[0], gs[1]) if gs else None
                     F = gen(fc, G)
-                    for _, fn in chain:
+                    for tk, fn in chain:
+                        # a substitution multiplies a clause of width w by about 2^(w*(arity-1)): keep the session small
+                        ar = 2 if tk[0] == 'xor' else (int(tk[2]) if tk[0] in ('xorcomp', 'majcomp') else 1)
+                        if len(F) > 3000 or sum(2 ** min(len(c) * (ar - 1), 40) for c in F) > 30000:
+                            raise TooBig()
                         F = fn(F)
                     return F, G
-                b = outcome(session)
+                b = outcome(session)          # the session runs first: it decides whether the command line is affordable
+                if b[0] == 'exc' and b[1] == 'TooBig':
+                    ctx.tally('seeded session: skipped', 'chain would be too large')
+                    continue
+                a = outcome(lambda: (cnfgen_cli if tool == 'cnfgen' else pbgen_cli)(argv, mode='formula'))
                 random_places = (1 if gs and any(t in gs[1] for t in ('gnp', 'gnm', 'gnd', 'glrp', 'glrd', 'glrm', 'regular', 'plantclique', 'addedges', 'splitedges')) else 0) \
                     + (1 if fcmd[0] in ('tseitin', 'randkcnf') else 0) + sum(1 for tk, _ in chain if tk[0] in ('shuffle', 'xorcomp', 'majcomp'))
                 ctx.count('seeded-sessions', ('seeded', tuple(argv[1:])), nontrivial=random_places >= 2, sample=dict(argv=argv))
